@@ -101,9 +101,12 @@ pub fn catch<T>(f: impl FnOnce() -> T) -> Result<T, String> {
     }
 }
 
-/// Whether a panic location lies in framehop's own sources.
+/// Whether a panic is framehop's own: every panic except those located inside the three
+/// third-party *parsers* the model excludes (gimli, macho-unwind-info, pe-unwind-info). A panic
+/// located in a utility crate (e.g. arrayvec's capacity panic) or in core is raised on behalf of
+/// the framehop code that called it.
 pub fn panic_in_own_code(loc: &str) -> bool {
-    loc.starts_with("/repo/src") || loc.starts_with("src/")
+    !(loc.contains("/gimli-") || loc.contains("/macho-unwind-info-") || loc.contains("/pe-unwind-info-"))
 }
 
 #[derive(Default, Clone)]
